@@ -81,6 +81,10 @@ pub struct Case {
     /// real loaders only: open the root as `w/root.scss` from the top of the tree
     #[serde(default)]
     pub root_with_dir: bool,
+    /// url `s/u` only: a REGULAR FILE named `s` next to the importer (which then has no candidate of its
+    /// own): the lookup there fails with ENOTDIR rather than ENOENT and must still go on to the load paths
+    #[serde(default)]
+    pub blocker: bool,
 }
 
 #[derive(Clone, Debug, Serialize, Deserialize, PartialEq)]
@@ -256,6 +260,10 @@ impl Case {
         }
         if let Some(pf) = &self.plain_file {
             fs.add_file(pf, format!("c {{ p: \"{pf}\"; }}\n"));
+        }
+        // last, so that it only exists where nothing needs `s` to be a directory
+        if self.blocker && self.url.starts_with("s/") && !fs.is_dir(&format!("{}/s", self.importer_dir())) {
+            fs.add_file(&format!("{}/s", self.importer_dir()), "not a directory\n");
         }
         (fs, root)
     }
@@ -831,6 +839,7 @@ pub fn case_for(index: u64, tier: Tier, rng: &mut Rng) -> (Case, &'static str) {
                 other: None,
                 plain_first: None,
                 root_with_dir: i % 2 == 1,
+                blocker: false,
             },
             "single_location_exhaustive",
         );
@@ -863,6 +872,7 @@ pub fn case_for(index: u64, tier: Tier, rng: &mut Rng) -> (Case, &'static str) {
                 other: None,
                 plain_first: None,
                 root_with_dir: i % 2 == 1,
+                blocker: false,
             },
             "plain_css_arm",
         );
@@ -895,6 +905,7 @@ pub fn case_for(index: u64, tier: Tier, rng: &mut Rng) -> (Case, &'static str) {
                 other: None,
                 plain_first: None,
                 root_with_dir: i % 2 == 1,
+                blocker: false,
             },
             "two_locations_use_exhaustive",
         );
@@ -938,6 +949,7 @@ pub fn case_for(index: u64, tier: Tier, rng: &mut Rng) -> (Case, &'static str) {
                     other: None,
                     plain_first: None,
                     root_with_dir: i % 2 == 1,
+                    blocker: false,
                 },
                 section,
             );
@@ -1036,6 +1048,7 @@ pub fn case_for(index: u64, tier: Tier, rng: &mut Rng) -> (Case, &'static str) {
     } else {
         None
     };
+    let blocker = url.starts_with("s/") && rng.chance(1, 2);
     let section = if two.is_some() { "two_importers_sampled" } else if other.is_some() { "two_loads_sampled" } else { "several_locations_sampled" };
     (
         Case {
@@ -1046,6 +1059,7 @@ pub fn case_for(index: u64, tier: Tier, rng: &mut Rng) -> (Case, &'static str) {
             two,
             other,
             root_with_dir: rng.chance(1, 2),
+            blocker,
             plain_first: if kind == LoadKind::Import && rng.chance(1, 4) {
                 Some(rng.pick(&["\"//cdn.example/x\"", "\"http://h.example/y.css\"", "\"missing-plain.css\"", "url(z.css)"]).to_string())
             } else {
@@ -1070,7 +1084,7 @@ pub fn case_for(index: u64, tier: Tier, rng: &mut Rng) -> (Case, &'static str) {
             nlp,
             plain: None,
             plain_file: None,
-            chunk: if rng.chance(1, 5) { Chunking::draw(rng) } else { Chunking::NONE },
+            chunk: if rng.chance(1, 5) { Chunking::draw_for_generated(rng) } else { Chunking::NONE },
             real_fs: false,
             dirnames: vec![],
             via: Via::Stub,
